@@ -256,10 +256,176 @@ def check_threads(case):
     return rec
 
 
+def const_conditions(bcs):
+    """the constant-value conditions (Dirichlet, Neumann, Robin, curvature ...) of a Boundaries object"""
+    from pde.grids.boundaries.local import ConstBCBase, _PeriodicBC
+
+    res = []
+    for axis_bc in bcs:
+        for side in ("low", "high"):
+            bc = getattr(axis_bc, side, None)
+            if isinstance(bc, ConstBCBase) and not isinstance(bc, _PeriodicBC):
+                res.append(bc)
+    return res
+
+
+def full_value(bc, val):
+    """value broadcast to the shape tensor + boundary that link_value expects"""
+    val = np.asarray(val)
+    if val.shape == tuple(bc._shape_tensor):
+        val = val.reshape(val.shape + (1,) * len(bc._shape_boundary))
+    return np.broadcast_to(val, tuple(bc._shape_tensor) + tuple(bc._shape_boundary))
+
+
+def new_value(bc, mul, add):
+    from pde.grids.boundaries.local import MixedBC
+
+    v = np.asarray(bc.value)
+    if isinstance(bc, MixedBC):
+        # keeps the Robin denominator 2 + dx*value away from zero
+        return np.abs(v) * abs(mul) + abs(add)
+    return v * mul + add
+
+
+def check_update(case):
+    """History on ONE Boundaries object (after missed seed C03-6): the conditions are used through some
+    routes, then their values are changed - with the documented ``value`` setter or, for linked values, by
+    writing into the linked array - and every route is taken again.  Reference: a fresh, never used
+    Boundaries object carrying the new values."""
+    grid, gspec, op, field, data, bcs, style = setup_case(case)
+    name, opts = op["name"], op["opts"]
+    t = case["t"]
+    how = case["how"]
+    mul, add = case["mul"], case["add"]
+    consts = const_conditions(bcs)
+    if not consts:
+        return {"nt": False, "labels": ["no-constant-condition"]}
+    linked = []
+    if how == "link":
+        from pde.grids.boundaries.local import MixedBC
+
+        # linked Robin conditions: only with a scalar `const` (the compiled setter of a linked MixedBC
+        # treats `const` as one number; the combination with a tensor-valued const is not supported)
+        if any(isinstance(bc, MixedBC) and np.asarray(bc.const).ndim > 0 for bc in consts):
+            how = "setter"
+    if how == "link":
+        for bc in consts:
+            # (the value of an automatic condition is an integer array: the linked array gets the data type
+            # of the field, otherwise writing the new value would truncate it)
+            arr = np.array(full_value(bc, bc.value), dtype=np.result_type(np.asarray(bc.value).dtype, data.dtype),
+                           order="C")
+            bc.link_value(arr)
+            linked.append(arr)
+    # ---- first use (warms whatever the conditions or the grid remember) --------------------------
+    warm = case["warm"]
+    if "field" in warm:
+        field.copy().apply_operator(name, bcs, args={"t": t}, **opts)
+    if "numba" in warm:
+        grid.make_operator(name, bcs, backend="numba", **opts)(data.copy(), args=numba_args(t))
+    if "setter" in warm:
+        a = field.copy()
+        a.set_ghost_cells(bcs, args={"t": t})
+        get_backend("numba").make_ghost_cell_setter(bcs)(a._data_full, args=numba_args(t))
+    scipy_ok = gspec["cls"] in ("unit", "cart") and name in gf.SCIPY_OPS and \
+        set(opts) <= ({"method"} if name in ("gradient", "divergence") else set())
+    if "scipy" in warm and scipy_ok:
+        try:
+            grid.make_operator(name, bcs, backend="scipy", **opts)(data.copy(), args={"t": t})
+        except RuntimeError as e:
+            if "isotropic" not in str(e).lower():
+                raise
+            scipy_ok = False
+    # (the matrix route as in `routes_matrix`: at least two cells per axis, conditions that have a sparse
+    # representation)
+    matrix_ok = name == "laplace" and not opts and case["dtype"] == "f8" and gspec["cls"] != "sph" and \
+        min(gspec["shape"]) >= 2 and \
+        all(hasattr(bc, "get_sparse_matrix_data") for ax in bcs
+            for bc in (getattr(ax, "low", None), getattr(ax, "high", None)) if bc is not None)
+    if "matrix" in warm and matrix_ok:
+        try:
+            laplace_matrix(gspec, bcs)
+        except NotImplementedError:
+            matrix_ok = False
+    if "virtual" in warm:
+        for bc in consts:
+            bc.get_virtual_point_data() if hasattr(bc, "get_virtual_point_data") else None
+    # ---- change the values ------------------------------------------------------------------------
+    with warnings.catch_warnings():
+        warnings.simplefilter("ignore", DeprecationWarning)
+        fresh, _ = gb.make_boundaries(case["bc"], gspec, grid, case["dtype"])
+    for i, (bc, ref) in enumerate(zip(consts, const_conditions(fresh))):
+        val = new_value(ref, mul, add)
+        ref.value = val
+        if how == "link":
+            linked[i][...] = full_value(bc, val)
+        else:
+            bc.value = val
+    # ---- every route again, on the used object ----------------------------------------------------
+    fr = field.copy()
+    ref = fr.apply_operator(name, fresh, args={"t": t}, **opts).data
+    if not np.all(np.isfinite(ref)):
+        raise Rejected("non-finite reference result")
+    tol = gf.op_tolerance(gspec, name, fr._data_full)
+    tag = f"after-{how}-update:"
+    routes = []
+    r1 = field.copy().apply_operator(name, bcs, args={"t": t}, **opts).data
+    compare(tag + "field.apply_operator", ref, r1, tol, case)
+    routes.append("U1")
+    r2 = grid.make_operator(name, bcs, backend="numba", **opts)(data.copy(), args=numba_args(t))
+    compare(tag + "make_operator[numba]", ref, r2, tol, case)
+    routes.append("U2")
+    f4 = field.copy()
+    f4.set_ghost_cells(bcs, args={"t": t})
+    out4 = np.full_like(ref, np.nan)
+    grid.make_operator_no_bc(name, backend="numba", **opts)(f4._data_full, out4)
+    compare(tag + "set_ghost_cells+make_operator_no_bc", ref, out4, tol, case)
+    f5 = field.copy()
+    get_backend("numba").make_ghost_cell_setter(bcs)(f5._data_full, args=numba_args(t))
+    out5 = np.full_like(ref, np.nan)
+    grid.make_operator_no_bc(name, backend="numba", **opts)(f5._data_full, out5)
+    compare(tag + "make_ghost_cell_setter+make_operator_no_bc", ref, out5, tol, case)
+    routes += ["U4", "U5"]
+    if scipy_ok:
+        r3 = grid.make_operator(name, bcs, backend="scipy", **opts)(data.copy(), args={"t": t})
+        compare(tag + "make_operator[scipy]", ref, r3, tol, case)
+        routes.append("U3")
+    if matrix_ok:
+        try:
+            matrix, vector = laplace_matrix(gspec, bcs)
+        except NotImplementedError:
+            pass
+        else:
+            r6 = (np.asarray(matrix.todense()) @ data.ravel() + np.asarray(vector.todense()).ravel()).reshape(data.shape)
+            compare(tag + "sparse-matrix", ref, r6, gf.op_tolerance(gspec, "laplace", fr._data_full, rel=1e-11), case)
+            routes.append("U6")
+    rec = record(case, style, routes)
+    rec["labels"] += [f"how:{how}"] + [f"warm:{w}" for w in warm] + [f"updated-conditions:{min(len(consts), 4)}"]
+    rec["key"] = [rec["key"], how, sorted(warm), mul, add]
+    return rec
+
+
+@st.composite
+def update_cases(draw, jit=False):
+    case = draw(cases(max_cells=4 if jit else 6, jit=jit))
+    case["how"] = draw(st.sampled_from(["setter", "setter", "link"]))
+    case["warm"] = sorted(draw(st.sets(st.sampled_from(["field", "numba", "setter", "scipy", "matrix", "virtual"]),
+                                       min_size=1, max_size=4)))
+    case["mul"] = draw(st.sampled_from([-0.5, 2.0, 0.0, 1.5]))
+    case["add"] = draw(st.sampled_from([1.25, -0.75, 0.5, 3.0]))
+    return case
+
+
 RULE_NT = ("non-trivial = at least one non-periodic face with an inhomogeneous or second-order/Robin/normal "
            "condition and >= 2 routes compared")
 
 SUBCHECKS = [
+    SubCheck("routes_after_value_update_nojit", strategy=update_cases, check=check_update, mode="nojit",
+             budget={"quick": 900, "thorough": 15000}, shards={"quick": 4, "thorough": 12},
+             rule=RULE_NT + "; the values of the constant conditions were changed after a first use"),
+    SubCheck("routes_after_value_update_jit", strategy=lambda: update_cases(jit=True), check=check_update, mode="jit",
+             budget={"quick": 10, "thorough": 200}, shards={"quick": 5, "thorough": 10},
+             time_limit={"quick": 120, "thorough": 1500},
+             rule=RULE_NT + "; the values of the constant conditions were changed after a first use"),
     SubCheck("routes_nojit", strategy=cases, check=check_routes, mode="nojit",
              budget={"quick": 2400, "thorough": 40000}, shards={"quick": 6, "thorough": 16}, rule=RULE_NT),
     SubCheck("routes_jit", strategy=lambda: cases(max_cells=4, jit=True), check=check_routes, mode="jit",
